@@ -41,6 +41,8 @@ func genDeleg(r *simkit.Rand, prop string) *simkit.Plan {
 	if k["ep_mgr"] > 0 || k["ep_deleg"] > 0 {
 		p.Steps = append(p.Steps, simkit.Step{Op: "epoch", T: -1, I: []int64{1}})
 	}
+	longIdle := r.Chance(0.3) // some runs contain long idle stretches (tens of rewarded epochs without user activity)
+	restarts := r.Chance(0.3) // some runs restart the node with another unbond period
 	cap := int64(0)
 	if r.Chance(0.4) {
 		cap = dep + price*int64(r.Range(1, 4)) + int64(r.Range(0, 40))
@@ -50,12 +52,32 @@ func genDeleg(r *simkit.Rand, prop string) *simkit.Plan {
 	if r.Chance(0.04) {
 		val = dep - 1
 	}
+	if restarts && val < dep+2*price {
+		val = dep + 2*price // enough own funds to keep nodes staked
+	}
 	p.Steps = append(p.Steps, simkit.Step{Op: "create", T: 0, I: []int64{cap, fees[r.Intn(len(fees))], val}})
 
+	if restarts && r.Chance(0.8) { // nodes staked early: the validator then tags unstaked tokens with the real epoch
+		ids := []int64{0}
+		if nKeys > 1 && r.Chance(0.5) {
+			ids = append(ids, 1)
+		}
+		p.Steps = append(p.Steps, simkit.Step{Op: "addnodes", T: 0, I: ids}, simkit.Step{Op: "stakenodes", T: 0, I: ids})
+	}
 	ops := []string{"delegate", "undelegate", "withdraw", "claim", "redelegate", "rewards", "epoch", "addnodes", "stakenodes", "unstakenodes",
-		"unbondnodes", "restakenodes", "unjailnodes", "cap", "fee", "autoact", "recap", "mindeleg", "jail", "nonce", "removenodes"}
+		"unbondnodes", "restakenodes", "unjailnodes", "cap", "fee", "autoact", "recap", "mindeleg", "jail", "nonce", "removenodes", "idle", "restart"}
 	w := []int{r.Range(5, 10), r.Range(3, 8), r.Range(2, 5), r.Range(2, 5), r.Range(1, 4), r.Range(2, 4), r.Range(2, 5), r.Range(0, 2), r.Range(0, 2), r.Range(0, 2),
-		r.Range(0, 2), r.Range(0, 1), r.Range(0, 1), r.Range(0, 2), r.Range(0, 2), r.Range(0, 1), r.Range(0, 1), r.Range(0, 1), r.Range(0, 1), r.Range(0, 2), r.Range(0, 1)}
+		r.Range(0, 2), r.Range(0, 1), r.Range(0, 1), r.Range(0, 2), r.Range(0, 2), r.Range(0, 1), r.Range(0, 1), r.Range(0, 1), r.Range(0, 1), r.Range(0, 2), r.Range(0, 1), 0, 0}
+	if longIdle {
+		w[len(w)-2] = r.Range(1, 3)
+	}
+	if restarts {
+		w[len(w)-1] = r.Range(1, 2)
+		w[1] += 3 // more undelegations
+		w[2] += 2 // more withdrawals
+		w[6] += 2 // more epoch ticks
+		w[9], w[10] = r.Range(0, 1), r.Range(0, 1)
+	}
 	someKeys := func() []int64 {
 		n := r.Range(1, nKeys)
 		perm := r.Perm(nKeys)
@@ -107,12 +129,23 @@ func genDeleg(r *simkit.Rand, prop string) *simkit.Plan {
 			add(simkit.Step{Op: op, T: -1, I: []int64{[]int64{1, m, m + 5, 2 * m}[r.Intn(4)]}})
 		case "nonce":
 			add(simkit.Step{Op: op, T: -1, I: []int64{int64(r.Range(1, 6))}})
+		case "idle":
+			add(simkit.Step{Op: op, T: -1, I: []int64{[]int64{5, 29, 30, 31, 35, 45, 62, 80}[r.Intn(8)], []int64{100, 1000, 12345}[r.Intn(3)]}})
+		case "restart":
+			add(simkit.Step{Op: op, T: -1, I: []int64{[]int64{0, 1, 2, 3, 5}[r.Intn(5)], []int64{-1, -1, 0, 2, 8}[r.Intn(5)]}})
 		}
 	}
 	if r.Chance(0.7) { // final sweep: let every unbond period elapse, then everybody withdraws and claims
 		p.Steps = append(p.Steps, simkit.Step{Op: "epoch", T: -1, I: []int64{k["unbond_epochs"] + 1}})
+		claims := 1
+		if longIdle {
+			claims = 3 // nobody is left with rewards pending after a long stretch, whatever the contract does per call
+		}
 		for u := 0; u <= nUsers; u++ {
-			p.Steps = append(p.Steps, simkit.Step{Op: "withdraw", T: u}, simkit.Step{Op: "claim", T: u})
+			p.Steps = append(p.Steps, simkit.Step{Op: "withdraw", T: u})
+			for j := 0; j < claims; j++ {
+				p.Steps = append(p.Steps, simkit.Step{Op: "claim", T: u})
+			}
 		}
 	}
 	return p
@@ -129,6 +162,7 @@ type delegRun struct {
 
 	undelegated, withdrawn, rewardsIn, rewardsPaid, redelegated *big.Int
 	lastRewardsEpoch                                            int64
+	light                                                       bool // inside an idle stretch: the view-level clauses are evaluated only after its last transaction
 
 	nonOwnerDelegated, someUndelegated, paidOut bool
 }
@@ -199,6 +233,43 @@ func (r *delegRun) step(st *simkit.Step) {
 	case "nonce":
 		e.ch.nonce += uint64(st.Int(0, 1))
 		e.ch.round = e.ch.nonce
+		return
+	case "idle":
+		// a long stretch in which nobody but the protocol acts: every epoch brings its updateRewards call
+		n := st.Int(0, 1)
+		if n > 100 {
+			n = 100
+		}
+		rw := simkit.Step{Op: "rewards", T: -1, I: []int64{st.Int(1, 100)}}
+		for j := int64(0); j < n && !r.c.Failed(r.prop); j++ {
+			e.setEpoch(e.ch.epoch + 1)
+			e.ch.nonce += 3
+			e.ch.round = e.ch.nonce
+			if r.contract == nil {
+				continue
+			}
+			r.light = j+1 < n
+			r.step(&rw)
+		}
+		r.light = false
+		r.c.Eventf("idle %d epochs -> %d", n, e.ch.epoch)
+		if n > 30 && r.contract != nil {
+			r.c.Probe("idle_more_than_30_rewarded_epochs")
+		}
+		return
+	case "restart":
+		// node restart with a changed configuration: system contracts re-created over the same state
+		if v := st.Int(0, -1); v >= 0 {
+			e.cfg.unBondEpochs = uint32(v)
+		}
+		if v := st.Int(1, -1); v >= 0 {
+			e.cfg.unBondNonces = uint64(v)
+		}
+		if !e.restart() {
+			return
+		}
+		r.c.Eventf("restart unbond_epochs=%d unbond_nonces=%d", e.cfg.unBondEpochs, e.cfg.unBondNonces)
+		r.c.Probe("restart_with_changed_unbond_period")
 		return
 	case "create":
 		if r.contract != nil {
@@ -416,7 +487,7 @@ func (r *delegRun) afterOk(st *simkit.Step, u int, res *txRes, amt *big.Int) {
 	}
 
 	// ---- view level
-	if ta, ok := r.view("getTotalActiveStake"); ok {
+	if ta, ok := r.view("getTotalActiveStake"); ok && !r.light {
 		tu, ok2 := r.view("getTotalUnStaked")
 		vA, vU := bi(0), bi(0)
 		complete := ok2
